@@ -29,6 +29,12 @@
 #include <boost/asio/ip/tcp.hpp>
 #include <boost/beast/http.hpp>
 #include <algorithm>
+#include <thread>
+#include <mutex>
+#include <condition_variable>
+#include <chrono>
+#include "base/function.hpp"
+#include "remote/configobjectslock.hpp"
 
 using namespace icinga;
 
@@ -40,6 +46,26 @@ std::vector<ConfigObject::Ptr> l_Objs;     // in creation order
 ApiUser::Ptr l_User;
 std::string l_UserPerms;
 bool l_Init = false;
+bool l_Sig = false;           // pm_user sig=1: every permission filter is rendered as `pm_sig(obj) && (<filter>)`
+// directed schedules (pm_race): the request's thread is parked inside the permission filter's evaluation of ONE object
+std::mutex l_ParkM;
+std::condition_variable l_ParkCV;
+Object *l_ParkTarget = nullptr;
+bool l_Parked = false, l_Go = false;
+
+// pm_sig(o): always true.  When armed for o, signals "the permission filter is being evaluated for o" and waits for the main thread.
+Value PmSig(const std::vector<Value>& args)
+{
+	if (args.empty() || !args[0].IsObject()) return true;
+	Object::Ptr o = args[0];
+	std::unique_lock<std::mutex> lock(l_ParkM);
+	if (l_ParkTarget && o.get() == l_ParkTarget && !l_Parked) {
+		l_Parked = true;
+		l_ParkCV.notify_all();
+		l_ParkCV.wait_for(lock, std::chrono::seconds(30), [] { return l_Go; });
+	}
+	return true;
+}
 // global constants declared by pm_glob in this case: name, whether it existed before, previous value
 struct PmSavedGlobal { String name; bool existed; Value old; };
 std::vector<PmSavedGlobal> l_SavedGlobals;
@@ -125,6 +151,8 @@ void InitOnce()
 {
 	if (l_Init) return;
 	l_Init = true;
+	// side-effect free, so that it may also be called when the permission lambda runs sandboxed (filter phase)
+	ScriptGlobal::Set("pm_sig", new Function("pm_sig", PmSig, { "o" }, true));
 	// objects the inventories refer to through navigation fields (check_command, check_period, event_command,
 	// command_endpoint); a checkable with command_endpoint needs a zone that is the endpoint zone's parent
 	LoadConfig("object CheckCommand \"pmdummy\" { command = [ \"/bin/true\" ] }\n"
@@ -284,6 +312,7 @@ VOP(pm_glob)
 VOP(pm_user)
 {
 	l_UserPerms = a.str("perms", "-");
+	l_Sig = a.num("sig", 0) != 0;
 }
 
 VOP(pm_load)
@@ -312,7 +341,7 @@ VOP(pm_load)
 			else if (at + 1 == e.size())
 				c << "    { permission = " << Quote(HexDec(e.substr(0, at))) << " },\n";
 			else
-				c << "    { permission = " << Quote(HexDec(e.substr(0, at))) << ", filter = {{ " << FilterText(e.substr(at + 1)) << " }} },\n";
+				c << "    { permission = " << Quote(HexDec(e.substr(0, at))) << ", filter = {{ " << (l_Sig ? "pm_sig(obj) && (" : "(") << FilterText(e.substr(at + 1)) << ") }} },\n";
 		}
 		c << "  ]\n";
 	}
@@ -732,6 +761,141 @@ VOP(pm_aq)
 	for (auto& kv : jkeys) { if (!jk.empty()) jk += "/"; jk += kv.first + "=" + kv.second; }
 	Out("pm_aq code=ok objs=" + JoinSorted(objs) + " akeys=" + akeys + (avary ? "!vary" : "") + " joins=" + JoinSorted(joins) +
 		" jkeys=" + (jk.empty() ? "-" : jk) + (jvary ? "!vary" : "") + " embed=" + JoinSorted(embeds) + " hidden=" + std::to_string(hidden));
+}
+
+// ---------------------------------------------------------------------------------------------------------------
+// round 5 (e): check-then-act.  pm_race kind=modify|action|query|delete ptype=hosts|services target=<hex name>
+//   nvars=<vars> [ncp= nec= nce=] lock=0|1 + query parameters (as pm_http; `name=` puts the name into the URL)
+// Directed schedule, no hook in /repo: (1) the request runs on its own thread; its permission filter (rendered with pm_sig,
+// see pm_user sig=1) parks the thread while it evaluates the TARGET object, i.e. after the handler resolved it and before the
+// verdict is used; (2) with lock=1 the harness - "another writer" - takes ObjectNameLock(type, target); (3) it deletes the
+// target and creates a NEW object of the same name with other attributes; (4) it lets the request continue - the request
+// finishes its authorisation and then has to wait for the name lock - and releases the lock.  Observed: status, names in `results`, and which OBJECT was acted on - the one that had the name at
+// authorisation time (old) or the one that has it now (new): notes (modify), next_check (action), vars.pmid in the
+// serialised attributes (query), still registered (delete).
+VOP(pm_race)
+{
+	namespace http = boost::beast::http;
+	HttpInit();
+	std::string kind = a.str("kind", "modify");
+	std::string tname = a.str("ptype", "hosts") == "services" ? "Service" : "Host";
+	String target = HexDec(a.str("target"));
+	ConfigObject::Ptr oldObj = ConfigObject::GetObject(tname, target);
+	size_t idx = 0;
+	while (idx < l_Objs.size() && l_Objs[idx] != oldObj) idx++;
+	if (!oldObj || idx == l_Objs.size()) throw std::runtime_error("pm_race: no such target");
+	Dictionary::Ptr body = BuildQuery(a);
+	std::string url;
+	http::verb verb;
+	const double marker = 2100000000.0 + CaseId() % 1000;
+	String notes = "pm-race-" + std::to_string(CaseId()) + "-" + std::to_string(rand());
+	if (kind == "action") {
+		url = "/v1/actions/reschedule-check";
+		verb = http::verb::post;
+		body->Set("next_check", marker);
+		for (auto& o : l_Objs) static_pointer_cast<Checkable>(o)->SetNextCheck(1.0, true);
+	} else {
+		url = "/v1/objects/" + a.str("ptype", "hosts");
+		if (a.has("name")) url += "/" + UrlEnc(HexDec(a.str("name")));
+		if (kind == "query") { verb = http::verb::get; body->Set("attrs", new Array({ String("vars"), String("__name") })); }
+		else if (kind == "modify") { verb = http::verb::post; body->Set("attrs", new Dictionary({ { "notes", notes } })); }
+		else verb = http::verb::delete_;
+	}
+	// the object that will carry the name afterwards
+	PmObjSpec ns = l_Specs.at(idx);
+	ns.vars = a.str("nvars", "-");
+	ns.cp = HexDec(a.str("ncp", "-")); ns.ec = HexDec(a.str("nec", "-")); ns.ce = HexDec(a.str("nce", "-"));
+	std::ostringstream oc;
+	if (!ns.svc) oc << "object Host " << Quote(ns.name) << " {\n" << PmNavText(ns) << "  enable_active_checks = false\n" << VarsText(ns.vars) << "}\n";
+	else oc << "object Service " << Quote(ns.name) << " {\n  host_name = " << Quote(ns.host) << "\n" << PmNavText(ns) << "  enable_active_checks = false\n" << VarsText(ns.vars) << "}\n";
+
+	{
+		std::unique_lock<std::mutex> lock(l_ParkM);
+		l_ParkTarget = oldObj.get(); l_Parked = false; l_Go = false;
+	}
+	std::unique_ptr<ObjectNameLock> nameLock;
+	bool useLock = a.num("lock", 1) != 0 && (kind == "modify" || kind == "delete");
+
+	http::response<http::string_body> response;
+	std::string failure;
+	bool finished = false;
+	std::thread worker([&]() {
+		try { PmRunHttp(verb, url, body, response); } catch (const std::exception& ex) { failure = ex.what(); }
+		std::unique_lock<std::mutex> lock(l_ParkM);
+		finished = true;
+		l_ParkCV.notify_all();
+	});
+	bool parked;
+	{
+		std::unique_lock<std::mutex> lock(l_ParkM);
+		l_ParkCV.wait_for(lock, std::chrono::seconds(60), [&] { return l_Parked || finished; });
+		parked = l_Parked;
+	}
+	// the other writer: takes the name lock (the request is parked in its authorisation phase and has not reached its own
+	// ObjectNameLock yet; a request that never evaluates the target's permission filter has finished by now: no lock, or
+	// it would wait for us forever), deletes the object, creates another one under its name
+	useLock = useLock && parked;
+	if (useLock) nameLock.reset(new ObjectNameLock(Type::GetByName(tname), target));
+	RemoveObject(oldObj);
+	LoadConfig(oc.str());
+	ConfigObject::Ptr newObj = ConfigObject::GetObject(tname, target);
+	if (!newObj || newObj == oldObj) { failure = "swap failed"; }
+	else { l_Objs[idx] = newObj; l_Specs[idx] = ns; }
+	{
+		std::unique_lock<std::mutex> lock(l_ParkM);
+		l_Go = true; l_ParkTarget = nullptr;
+		l_ParkCV.notify_all();
+	}
+	if (useLock) {
+		std::this_thread::sleep_for(std::chrono::milliseconds(3));   // let the request reach the lock (not needed for the outcome)
+		nameLock.reset();
+	}
+	worker.join();
+	if (!failure.empty()) throw std::runtime_error("pm_race: " + failure);
+
+	int code = response.result_int();
+	std::ostringstream o;
+	o << "pm_race parked=" << (parked ? 1 : 0) << " code=";
+	if (code == 404) o << "404"; else if (code == 200 || code == 500) o << "ok"; else o << code;
+	Dictionary::Ptr rb;
+	try { rb = JsonDecode(response.body()); } catch (const std::exception&) {}
+	Array::Ptr results = rb ? Array::Ptr(rb->Get("results")) : Array::Ptr();
+	std::vector<std::string> objs, acted;
+	bool actedOld = false, actedNew = false;
+	if (kind == "action") {
+		for (auto& ob : l_Objs)
+			if (static_pointer_cast<Checkable>(ob)->GetNextCheck() == marker) objs.push_back(ObjKey(ob));
+		actedOld = static_pointer_cast<Checkable>(oldObj)->GetNextCheck() == marker;
+		actedNew = newObj && static_pointer_cast<Checkable>(newObj)->GetNextCheck() == marker;
+		if (actedOld) objs.push_back(ObjKey(oldObj));
+	} else if (results) {
+		ObjectLock olock(results);
+		for (const Dictionary::Ptr& r : results) {
+			objs.push_back(tname + ":" + HexEnc(String(r->Get("name")).GetData()));
+			if (kind == "query" && String(r->Get("name")) == target) {
+				// whose attributes were serialised: compare vars with the two objects'
+				Dictionary::Ptr at = r->Get("attrs");
+				String sv = at ? JsonEncode(at->Get("vars")) : String("?");
+				String ov = JsonEncode(static_pointer_cast<CustomVarObject>(oldObj)->GetVars());
+				String nv = newObj ? JsonEncode(static_pointer_cast<CustomVarObject>(newObj)->GetVars()) : String("?");
+				if (sv == ov) actedOld = true;
+				if (sv == nv && sv != ov) actedNew = true;
+			}
+		}
+	}
+	if (kind == "modify") {
+		actedOld = static_pointer_cast<Checkable>(oldObj)->GetNotes() == notes;
+		actedNew = newObj && static_pointer_cast<Checkable>(newObj)->GetNotes() == notes;
+	}
+	if (kind == "delete") {
+		// objects of the fixture are not API-created: DeleteObject refuses them; what matters is that the new object is untouched
+		actedNew = newObj && (ConfigObject::GetObject(tname, target) != newObj || !newObj->IsActive());
+	}
+	std::sort(objs.begin(), objs.end());
+	objs.erase(std::unique(objs.begin(), objs.end()), objs.end());
+	if (code != 404 || !objs.empty()) o << " objs=" << JoinSorted(objs);
+	o << " acted=" << (actedOld ? "old" : "") << (actedOld && actedNew ? "+" : "") << (actedNew ? "new" : "") << (!actedOld && !actedNew ? "-" : "");
+	Out(o.str());
 }
 
 namespace {
